@@ -1,9 +1,9 @@
 (* C12, event names outside ASCII (round 7): the byte-level reading of identifiers.
    The shared lexer takes every byte above 127 as an identifier byte, so is_legal_binding_name accepts
    any UTF-8 garbage inside a listener identifier. ECMAScript allows only ID_Start / ID_Continue code
-   points there. uni_ok (Spec/C01Wf.v) is the explicit, conservative table: every non-ASCII code point
+   points there. uni_ok12 (the walker and table of Spec/C01Wf.v plus four more letter ranges) is the explicit, conservative table: every non-ASCII code point
    outside the listed scripts and every malformed UTF-8 sequence is rejected; an identifier made of
-   ASCII bytes only always passes (C12UniProofs.uni_ok_ascii), so on every file the model prints
+   ASCII bytes only always passes (C12UniProofs.uni_ok12_ascii), so on every file the model prints
    (its identifiers are ASCII, whatever the event name) the extended oracle equals oracle_m.
    oracle_u is the run-time judge of the implementation's files. Definitions only. *)
 From Coq Require Import String Ascii.
@@ -12,12 +12,18 @@ Require Import TT.Model.Str TT.Spec.TsLex TT.Spec.TsModule TT.Spec.TsObs TT.Spec
 Import ListNotations.
 Local Open Scope list_scope.
 
+(* letters of further scripts the unicode-names stream uses (all ID_Start): Hebrew U+05D0-05EA, Thai U+0E01-0E30,
+   Georgian U+10D0-10FA, Latin ligatures U+FB00-FB06 *)
+Definition c12_more_letters : list (N * N) := [(1488, 1514); (3585, 3632); (4304, 4346); (64256, 64262)]%N.
+Definition c12_start (cp : N) : bool := id_start_cp cp || in_ranges cp c12_more_letters.
+Definition c12_continue (cp : N) : bool := id_continue_cp cp || in_ranges cp c12_more_letters.
+Definition uni_ok12 (s : str) : bool := uni_walk c12_start c12_continue true s.
 Definition uni_name_of (l : lst) : str := match listener_event l with Some n => n | None => ls_name l end.
 Definition uni_complaints (events_ts : option str) : list complaint :=
   match events_ts with
   | Some t =>
       match parse_module t with
-      | Some m => flat_map (fun l => if uni_ok (ls_name l) then [] else [cmp "illegal-identifier" (uni_name_of l)]) (lsts m)
+      | Some m => flat_map (fun l => if uni_ok12 (ls_name l) then [] else [cmp "illegal-identifier" (uni_name_of l)]) (lsts m)
       | None => [] end
   | None => [] end.
 Definition oracle_u (mp : list (str * str)) (ss : list site) (events_ts index_ts : option str) : list complaint :=
